@@ -5,7 +5,7 @@ ID = "C10"
 LEVEL = "proof"
 RULE = ("transactions with 1-6 inputs/outputs, every input index incl. out-of-range, all six legacy flags (plus the two bare enum "
         "values FORKID / ANYONECANPAY that take the same code path), subscripts with OP_CODESEPARATOR at every position, inside "
-        "nested IF/ELSE and inside push data, boundary subscript lengths; script.rm_codesep on the same scripts; "
+        "nested IF/ELSE and inside push data, boundary subscript lengths; tx.sighash_ann: annotated inputs (stored locking script vs empty / different subscript) on objects obtained directly, by clone, JSON, CBOR, construction API, hex; script.rm_codesep on the same scripts; "
         "non-trivial = the model returns a preimage / a script; distinct by (op, arguments)")
 TRUSTED = ["hand-written Gallina model coq/Model/Sighash.v of src/transaction/sighash.rs and Script::remove_codeseparators (tied by this correspondence run)",
            "coq/Model/Tx.v, coq/Model/Script.v (transaction / script parsing and serialisation, properties C01 / C02)"]
@@ -94,6 +94,22 @@ def generate(rng, tier):
     # 253 inputs / 256 outputs
     for (fl, idx) in [(1, 252), (3, 252), (0x81, 0), (0x83, 252), (2, 1), (3, 255)]:
         cases.append(("tx.sighash", [G.BIG_COUNT_TX, str(idx), str(fl), "abac", "0"]))
+    # 4c. state carried in the object: optional annotations (satoshis, locking script) on the signed and on the other inputs, equal
+    # and unequal to the call arguments (incl. value 0 / 2^64-1 and the empty subscript), on objects obtained directly, through clone,
+    # JSON, CBOR, the construction API and hex; the preimage is a function of the wire fields and the arguments only
+    A = lambda tx, idx, fl, sub, v, ann, route: cases.append(("tx.sighash_ann", [tx.hex(), str(idx), str(fl), sub, str(v), ann, route]))
+    subs = ["", G.P2PKH, "ab51ab", ""]
+    n = 0
+    for fi, fl in enumerate(G.LEGACY_FLAGS):
+        for i in range(3):
+            v = [0, G.U64 - 1, 12345, 2 ** 63][(fi + i) % 4]
+            for ai, ann in enumerate(G.annotation_sets(i, v)):
+                routes = G.ROUTES if (tier == "thorough" or ai in (0, 2, 3)) else [G.ROUTES[(n + ai) % 6]]
+                for r in routes:
+                    A(G.EXTREME_TXS[(fi + ai) % 3], i, fl, subs[(n + ai) % 4], v, ann, r)
+                n += 1
+    A(G.EXTREME_TXS[0], 0, G.LEGACY_FLAGS[0], "ac", 5, "-", "j")
+    A(G.EXTREME_TXS[0], 3, G.LEGACY_FLAGS[0], "ac", 5, "0,7,-", "b")
     # 5. huge indices
     for idx in [3, 255, 2 ** 32, 2 ** 64 - 1]:
         S(tx, idx, rng.choice(G.LEGACY_FLAGS), G.P2PKH)
